@@ -132,6 +132,32 @@ class NetFluxes(Contract):
                 ('non-negative', L.forall2((0, n), (0, n), lambda i, j: R[i, j] >= 0))]
 
 
+class ReactivePopulations(Contract):
+    """reactive_populations: m_i = pi_i q+_i q-_i, normalised by its total; zero on sources and sinks (given a non-zero total)"""
+    key = F + 'reactive_populations'
+    abstract_nonlinear = False
+
+    def params(self, e, st):
+        return GetData().params(e, st)
+
+    def requires(self, L, A, G):
+        return GetData().requires(L, A, G)
+
+    def ensures(self, L, A, N, R, G, V):
+        pi = A['populations']
+        n = L.shape(A['tprob'], 0)
+        out = [('one-value-per-state', L.len(R) == n)]
+        if V is not None and L.sym:
+            import z3
+            q, d = V['forward_committors'], V['densities']
+            tot = z3.Function('SUM1_real', d.term.sort(), z3.IntSort(), z3.RealSort())(d.term, n)
+            out += [('density-is-population-times-both-committors', L.forall(0, n, lambda i: d[i] == pi[i] * q[i] * (1 - q[i]))),
+                    ('normalised-by-the-total-density', L.forall(0, n, lambda i: L.implies(tot != 0, R[i] * tot == d[i]))),
+                    ('zero-on-sources-and-sinks', L.implies(tot != 0, L.And(L.forall(0, L.len(A['sources']), lambda k: R[A['sources'][k]] == 0),
+                                                                        L.forall(0, L.len(A['sinks']), lambda k: R[A['sinks'][k]] == 0))))]
+        return out
+
+
 def registry():
-    cs = [CommittorsOpaque(), GetData(), ReactiveFluxes(), NetFluxes()]
+    cs = [CommittorsOpaque(), GetData(), ReactiveFluxes(), NetFluxes(), ReactivePopulations()]
     return {c.key: c for c in cs}
